@@ -28,6 +28,8 @@ from concurrent.futures import ThreadPoolExecutor
 
 HERE = os.path.dirname(os.path.abspath(__file__))
 ROOT = os.path.dirname(HERE)
+# the pristine Rust sources: repo-src/ inside a development copy, otherwise $KESTREL_REPO, otherwise /repo (only read, copied to a scratch directory)
+PRISTINE = os.path.join(ROOT, 'repo-src') if os.path.isdir(os.path.join(ROOT, 'repo-src')) else os.environ.get('KESTREL_REPO', '/repo')
 SEEDED = os.path.join(ROOT, 'seeded')
 CRYPTO = 'src/crypto/src/'
 
@@ -230,7 +232,7 @@ def run_case(case, tmp, base_lean):
     repo, lean = os.path.join(work, 'repo'), os.path.join(work, 'lean')
     os.makedirs(work)
     try:
-        shutil.copytree(os.path.join(ROOT, 'repo-src'), repo)
+        shutil.copytree(PRISTINE, repo)
         if case.patch is not None:
             with open(case.patch, encoding='utf-8') as f:
                 ptext = f.read()
